@@ -402,8 +402,10 @@ def _check_fuse(ctx, model):
            "the second pass overwrites the id again")
     # deprecated alias forwards
     m2, fn2 = model.func(f"{TR}:fuse_instruction_streams_with_unique_ids")
-    ok = ast.unparse(fn2.body[-1]).replace(" ", "") == \
-        "returnfuse_statement_streams_with_unique_ids(insns_a,insns_b)"
+    from ..rules import sole_result
+    ok = sole_result(fn2, plain=True) == (
+        "call", "fuse_statement_streams_with_unique_ids",
+        tuple(("param", a_.arg) for a_ in fn2.args.args[:2]), ())
     ctx.ob("P/fuse/deprecated-alias", ok, m2.loc(fn2),
            "old name forwards both streams in order" if ok else
            "fuse_instruction_streams_with_unique_ids does not forward its "
